@@ -453,5 +453,10 @@ func (s SyscallWithConditions) Assemble(p *Program, action Label) {
 		}
 		p.SetLabel(noMatch)
 	}
+
+	// None of the condition lists matched. The accumulator holds an argument
+	// word at this point, so reload the syscall number before the following
+	// entries compare against it.
+	p.ldSyscallNum()
 	p.SetLabel(nextSyscall)
 }
